@@ -23,6 +23,7 @@
    value, and are conditional on the operations returning Ok.  Every state reachable through the
    API satisfies screen_ok, and then nothing panics (C11_round_trip_reachable). *)
 Require Import Tac ListN Width Attrs Cell Row Grid Screen Vte Perform Parser RowInv GridInv ScreenInv SbFrame.
+Require Import Chunking.
 Require Import AltSpec AltSaved AltRound AltExamples.
 Open Scope N_scope.
 
@@ -104,13 +105,14 @@ Theorem C11_primary_isolation_all : forall rz acts s evs0 s' evs, altmode s = fa
   Forall (fun a => switch_free rz a = true) acts ->
   perform_all rz s acts evs0 = Ok (s', evs) -> alt s' = alt s /\ altmode s' = false.
 Proof. exact primary_isolation_all. Qed.
-(* through Parser::process *)
+(* through Parser::process; [delivered p bs] (Chunking.v) is what process hands to vte: pend p ++ bs
+   without its incomplete utf-8 tail (= bs when pend p = [] and bs ends in a complete character) *)
 Theorem C11_process_alt_isolation : forall p bs q, altmode (scr p) = true ->
-  Forall (fun a => switch_free (resizing p) a = true) (snd (advance (vt p) bs)) ->
+  Forall (fun a => switch_free (resizing p) a = true) (snd (advance (vt p) (delivered p bs))) ->
   process p bs = Ok q -> g (scr q) = g (scr p) /\ altmode (scr q) = true.
 Proof. exact process_alt_isolation. Qed.
 Theorem C11_process_primary_isolation : forall p bs q, altmode (scr p) = false ->
-  Forall (fun a => switch_free (resizing p) a = true) (snd (advance (vt p) bs)) ->
+  Forall (fun a => switch_free (resizing p) a = true) (snd (advance (vt p) (delivered p bs))) ->
   process p bs = Ok q -> alt (scr q) = alt (scr p) /\ altmode (scr q) = false.
 Proof. exact process_primary_isolation. Qed.
 (* the API call set_scrollback while the alternate screen is shown *)
@@ -239,7 +241,7 @@ Theorem C11_round_trip_reachable : forall rows cols cap rz p0 ops p e x i1 i2 ac
   1 <= rows <= MAXDIM -> 1 <= cols <= MAXDIM -> parser_new rows cols cap rz = Ok p0 ->
   Forall op_ok ops -> run p0 ops = Ok p ->
   altmode (scr p) = false -> e = 47 \/ e = 1049 -> x = 47 \/ x = 1049 ->
-  snd (advance (vt p) bs) = ENTER e i1 :: acts ++ [LEAVE x i2] ->
+  snd (advance (vt p) (delivered p bs)) = ENTER e i1 :: acts ++ [LEAVE x i2] ->
   Forall (fun a => switch_free (resizing p) a = true) acts ->
   exists q, process p bs = Ok q /\ screen_ok (scr q) /\ altmode (scr q) = false /\
     g (scr q) = exit_g x (with_sb (entry_g e (g (scr p))) (sb (g (scr p))) 0).
